@@ -38,6 +38,9 @@ type Op struct {
 	Client  string
 	IP      string
 	Tags    int // index into TagSets
+	// Answer marks the DNS request as one made while filtering a response
+	// (DNSRequest.Answer; the library does not look at it today).
+	Answer bool
 
 	// OpWeb / OpMatchAll / OpMatch
 	URL, Src string
@@ -60,6 +63,9 @@ func (o *Op) Key() string {
 	case OpDNS:
 		if o.Short {
 			return fmt.Sprintf("dnsmatch|%s", o.Host)
+		}
+		if o.Answer {
+			return fmt.Sprintf("dns|%s|%d|%s|%s|%d|answer", o.Host, o.DNSType, o.Client, o.IP, o.Tags)
 		}
 		return fmt.Sprintf("dns|%s|%d|%s|%s|%d", o.Host, o.DNSType, o.Client, o.IP, o.Tags)
 	case OpRescan:
@@ -278,6 +284,7 @@ func genDNSFields(ch *core.Chooser, hosts []string, o *Op) {
 	o.Client = ClientNames[ch.Intn("q.client", len(ClientNames))]
 	o.IP = ClientIPs[ch.Intn("q.ip", len(ClientIPs))]
 	o.Tags = ch.Intn("q.tags", len(TagSets))
+	o.Answer = o.Kind == OpDNS && ch.Intn("q.answer", 5) == 4
 }
 
 // MutateOneField returns a copy of a DNS-style op that differs from o in
@@ -285,7 +292,13 @@ func genDNSFields(ch *core.Chooser, hosts []string, o *Op) {
 // that field from its predecessor answers differently.
 func MutateOneField(ch *core.Chooser, o Op) Op {
 	n := o
-	switch ch.Intn("q.mutfield", 4) {
+	f := ch.Intn("q.mutfield", 5)
+	if f == 4 && (o.Kind != OpDNS || o.Short) {
+		f = 3
+	}
+	switch f {
+	case 4:
+		n.Answer = !o.Answer
 	case 0:
 		n.Client = ClientNames[(indexOf(ClientNames, o.Client)+1+ch.Intn("q.mutv", len(ClientNames)-1))%len(ClientNames)]
 	case 1:
@@ -315,7 +328,7 @@ func indexOf(xs []string, s string) int {
 
 // DNSRequest renders the op as a DNS request.
 func (o *Op) DNSRequest() *urlfilter.DNSRequest {
-	r := &urlfilter.DNSRequest{Hostname: o.Host, DNSType: o.DNSType, ClientName: o.Client, SortedClientTags: TagSets[o.Tags]}
+	r := &urlfilter.DNSRequest{Hostname: o.Host, DNSType: o.DNSType, ClientName: o.Client, SortedClientTags: TagSets[o.Tags], Answer: o.Answer}
 	if o.IP != "" {
 		r.ClientIP = netip.MustParseAddr(o.IP)
 	}
